@@ -32,7 +32,7 @@ PARTS = {
                  ("bfs_cells_6", "MC_Zigzag_cel6.cfg", None, None),
                  ("sim_tetra_18", "MC_Zigzag_sim.cfg", 300, 19)],
 }
-TRACES = {"quick": (2, 300), "thorough": (6, 300)}   # executions per column type, arrows per execution
+TRACES = {"quick": (4, 300), "thorough": (6, 300)}   # executions per column type, arrows per execution
 
 
 def build():
